@@ -8,6 +8,7 @@ import MellonProofs.SchurLemmas
 import MellonProofs.C01
 import Mathlib.LinearAlgebra.Matrix.PosDef
 import Mathlib.Algebra.Order.Star.Real
+import MellonProofs.PSDJoint
 
 open Matrix Finset
 
@@ -97,6 +98,27 @@ theorem var_nonneg (s : CondState ℝ m d c) {L : Mat ℝ m m} (hsL : s.L = some
         (toM (gram s.cov s.xb Xq))ᵀ (toM (gram s.cov Xq Xq))).PosSemidef)
     (i : Nat) (hi : i < q) : 0 ≤ C.el i i := by
   have := (cov_psd s hsL hL Xq hC hjoint).diag_nonneg (i := ⟨i, hi⟩)
+  simpa using this
+
+/-- **Posterior covariance PSD from the kernel alone.**  When `L Lᵀ` is the kernel on the basis points plus a
+    positive semi-definite regulariser `N` (what every constructor builds: `full_LLt`, `getL_spec`) and the
+    kernel is positive semi-definite (`PSD.PSDOn`; proved for expressions over ExpQuad / Linear leaves by
+    `PSD.psdTree_psdOn`), the posterior covariance is positive semi-definite. -/
+theorem cov_psd_of_psd_kernel (s : CondState ℝ m d c) {L : Mat ℝ m m} (hsL : s.L = some L) (hL : LowerNonsing L)
+    (Xq : Mat ℝ q d) {C : Mat ℝ q q} (hC : s.covariance Xq = .ok C)
+    (hk : PSD.PSDOn d s.cov.k) {N : Matrix (Fin m) (Fin m) ℝ} (hN : N.PosSemidef)
+    (hLLt : toM L * (toM L)ᵀ = toM (gram s.cov s.xb s.xb) + N) : (toM C).PosSemidef := by
+  refine cov_psd s hsL hL Xq hC ?_
+  rw [hLLt]
+  have := PSD.joint_reg_psd hk s.xb Xq hN (Matrix.PosSemidef.zero (n := Fin q) (R := ℝ))
+  simpa using this
+
+/-- … and every posterior variance is non-negative. -/
+theorem var_nonneg_of_psd_kernel (s : CondState ℝ m d c) {L : Mat ℝ m m} (hsL : s.L = some L)
+    (hL : LowerNonsing L) (Xq : Mat ℝ q d) {C : Mat ℝ q q} (hC : s.covariance Xq = .ok C)
+    (hk : PSD.PSDOn d s.cov.k) {N : Matrix (Fin m) (Fin m) ℝ} (hN : N.PosSemidef)
+    (hLLt : toM L * (toM L)ᵀ = toM (gram s.cov s.xb s.xb) + N) (i : Nat) (hi : i < q) : 0 ≤ C.el i i := by
+  have := (cov_psd_of_psd_kernel s hsL hL Xq hC hk hN hLLt).diag_nonneg (i := ⟨i, hi⟩)
   simpa using this
 
 /-! ### covariance of the mean -/
